@@ -10,6 +10,7 @@
 -/
 import PowHsm.Admin.Gather
 import PowHsm.Proofs.Base64
+import PowHsm.Proofs.PemText
 namespace PowHsm
 namespace Props.C15
 open Gather
@@ -89,6 +90,15 @@ theorem too_many_pages_refused (chunks : List Bytes) (k : Nat) (hk : k < chunks.
     load back without loss (`Proofs/Base64.lean`, by induction over the 3-byte groups) -/
 theorem x509_message_roundtrip (der : Bytes) : Pem.decode (Pem.encode der) = some der :=
   Pem.decode_encode der
+
+/-- **the root of trust and the chain certificates are read from PEM text without loss**:
+    `HSMCertificateV2ElementX509.from_pem` — collapse white space, delete the END and the BEGIN marker,
+    strip, base64-decode — applied to the PEM text of a certificate with DER bytes `der` (markers on their
+    own lines, the base64 body in lines of any width) yields exactly `der`; for every byte string and every
+    line width (`Proofs/PemText.lean`: neither marker occurs inside the other or in base64 text; the decoder
+    skips the blanks the collapsing leaves) -/
+theorem pem_text_roundtrip (w : Nat) (der : Bytes) : Pem.load (Pem.text w der) = some der :=
+  Pem.load_text w der
 
 /-- non-vacuity: the three padding cases -/
 example : Pem.encode [0x4d, 0x61, 0x6e] = "TWFu".toList ∧ Pem.encode [0x4d, 0x61] = "TWE=".toList ∧
